@@ -183,7 +183,7 @@ theorem typeOK_nil : TypeOK [] := ⟨by simp [eachAttribute], by simp [eachAttri
 
 theorem define_ok {env : List OType} {d : Def} {t : OType} (h : define env d = .ok t) :
     ∃ attrs, defineAttrs (parentOf env d) d.attrs = .ok attrs ∧
-      checkSerialization attrs (parentOf env d) false (d.serialization.getD []) = .ok () ∧
+      checkSerialization attrs (parentOf env d) false [] (d.serialization.getD []) = .ok () ∧
       t = { id := env.length, attrs := attrs, equality := d.equality.toList?,
             includeType := d.includeType.getD true, serialization := d.serialization } :: parentOf env d := by
   unfold define at h
@@ -197,7 +197,7 @@ theorem define_ok {env : List OType} {d : Def} {t : OType} (h : define env d = .
     | error c => simp [he] at h
     | ok u =>
       simp only [he] at h
-      cases hs : checkSerialization attrs parent false (d.serialization.getD []) with
+      cases hs : checkSerialization attrs parent false [] (d.serialization.getD []) with
       | error c => simp [hs] at h
       | ok u' =>
         simp only [hs] at h
@@ -247,12 +247,12 @@ theorem tailOpt_of_split {l : List Attr} (h : Split l) : TailOpt l ((l.filter (f
   rw [List.getElem?_append_right hge] at hi
   exact ho a (List.mem_of_getElem? hi)
 
-theorem checkSerialization_split {own : List Attr} {parent : OType} {b : Bool} {ser : List String}
-    (h : checkSerialization own parent b ser = .ok ()) :
+theorem checkSerialization_split {own : List Attr} {parent : OType} {b : Bool} {seen ser : List String}
+    (h : checkSerialization own parent b seen ser = .ok ()) :
     (b = true → ∀ a ∈ ser.filterMap (lookupMember own parent), a.optional = true) ∧
-      Split (ser.filterMap (lookupMember own parent)) := by
-  induction ser generalizing b with
-  | nil => exact ⟨by simp, [], [], by simp, by simp, by simp⟩
+      Split (ser.filterMap (lookupMember own parent)) ∧ ser.Nodup ∧ ∀ n ∈ ser, n ∉ seen := by
+  induction ser generalizing b seen with
+  | nil => exact ⟨by simp, ⟨[], [], by simp, by simp, by simp⟩, by simp, by simp⟩
   | cons n ns ih =>
     unfold checkSerialization at h
     cases hl : lookupMember own parent n with
@@ -261,29 +261,45 @@ theorem checkSerialization_split {own : List Attr} {parent : OType} {b : Bool} {
       simp only [hl] at h
       split at h
       · cases h
-      · by_cases hopt : a.optional = true
-        · simp only [hopt, if_true] at h
-          obtain ⟨hall, _⟩ := ih h
-          have hall' := hall rfl
-          have hmem : ∀ x ∈ (n :: ns).filterMap (lookupMember own parent), x.optional = true := by
-            intro x hx
-            simp only [List.filterMap_cons, hl, List.mem_cons] at hx
-            rcases hx with hx | hx
-            · subst hx; exact hopt
-            · exact hall' x hx
-          exact ⟨fun _ => hmem, [], _, by simp, by simp, hmem⟩
-        · simp only [hopt, Bool.false_eq_true, if_false] at h
+      · split at h
+        · cases h
+        · rename_i hrao
           split at h
           · cases h
-          · rename_i hb
-            obtain ⟨_, rq, op, heq, hr, ho⟩ := ih h
-            refine ⟨fun hb' => absurd hb' hb, a :: rq, op, ?_, ?_, ho⟩
-            · simp only [List.filterMap_cons, hl, heq, List.cons_append]
-            · intro x hx
-              simp only [List.mem_cons] at hx
-              rcases hx with hx | hx
-              · subst hx; simpa using hopt
-              · exact hr x hx
+          · rename_i hseen
+            obtain ⟨hall, hsplit, hnd, hdisj⟩ := ih h
+            have hn_ns : n ∉ ns := fun hmem => hdisj n hmem (by simp)
+            have hnotseen : n ∉ seen := by simpa using hseen
+            have hnd' : (n :: ns).Nodup := List.nodup_cons.mpr ⟨hn_ns, hnd⟩
+            have hdisj' : ∀ m ∈ n :: ns, m ∉ seen := by
+              intro m hm
+              simp only [List.mem_cons] at hm
+              rcases hm with rfl | hm
+              · exact hnotseen
+              · intro hms; exact hdisj m hm (by simp [hms])
+            by_cases hopt : a.optional = true
+            · have hall' := hall (by simp [hopt])
+              have hmem : ∀ x ∈ (n :: ns).filterMap (lookupMember own parent), x.optional = true := by
+                intro x hx
+                simp only [List.filterMap_cons, hl, List.mem_cons] at hx
+                rcases hx with hx | hx
+                · subst hx; exact hopt
+                · exact hall' x hx
+              exact ⟨fun _ => hmem, ⟨[], _, by simp, by simp, hmem⟩, hnd', hdisj'⟩
+            · have hb : b = false := by
+                cases b with
+                | false => rfl
+                | true => simp [hopt] at hrao
+              obtain ⟨rq, op, heq, hr, ho⟩ := hsplit
+              have hbt : b = true → ∀ x ∈ (n :: ns).filterMap (lookupMember own parent), x.optional = true := by
+                intro hb'; rw [hb] at hb'; cases hb'
+              refine ⟨hbt, ⟨a :: rq, op, ?_, ?_, ho⟩, hnd', hdisj'⟩
+              · simp only [List.filterMap_cons, hl, heq, List.cons_append]
+              · intro x hx
+                simp only [List.mem_cons] at hx
+                rcases hx with hx | hx
+                · subst hx; simpa using hopt
+                · exact hr x hx
 
 theorem nodup_map_inj {l : List Attr} (h : (l.map (·.name)).Nodup) {a b : Attr} (ha : a ∈ l) (hb : b ∈ l)
     (hab : a.name = b.name) : a = b := by
@@ -355,13 +371,14 @@ theorem wf_noSerialization {l : Level} {p : OType} (hok : TypeOK (l :: p)) (hs :
   · intro a ha
     exact hok.god a (posAttrs_mem_each ha)
 
-/-- a type with a `serialization` list that passed `checkSerialization` and does not repeat a name -/
+/-- a type with a `serialization` list that passed `checkSerialization` (which also refuses a repeated name) -/
 theorem wf_serialization {l : Level} {p : OType} {ser : List String} (hok : TypeOK (l :: p))
-    (hs : l.serialization = some ser) (hnd : ser.Nodup)
-    (hc : checkSerialization l.attrs p false ser = .ok ()) : WF (l :: p) := by
+    (hs : l.serialization = some ser)
+    (hc : checkSerialization l.attrs p false [] ser = .ok ()) : WF (l :: p) := by
   have hpos : posAttrs (l :: p) = ser.filterMap (lookupMember l.attrs p) := by
     simp only [posAttrs, hs]
     congr 1
+  obtain ⟨_, hsplit, hnd, _⟩ := checkSerialization_split hc
   refine ⟨?_, ?_, ?_⟩
   · rw [hpos]
     have := names_filterMap_lookup l.attrs p ser
@@ -370,15 +387,14 @@ theorem wf_serialization {l : Level} {p : OType} {ser : List String} (hok : Type
   · unfold requiredCount
     apply tailOpt_of_split
     rw [hpos]
-    exact (checkSerialization_split hc).2
+    exact hsplit
   · intro a ha
     exact hok.god a (posAttrs_mem_each ha)
 
 /-- every definition accepted by `define` over an environment of accepted definitions satisfies the layout invariant
-    (own attribute names distinct and no repeated name in `serialization`: what the universe of the driver guarantees) -/
+    (own attribute names distinct: a hash literal — what the universe of the driver guarantees) -/
 theorem define_wf {env : List OType} {d : Def} {t : OType} (henv : ∀ t' ∈ env, TypeOK t')
-    (hnd : (d.attrs.map (·.name)).Nodup) (hser : ∀ ser, d.serialization = some ser → ser.Nodup)
-    (h : define env d = .ok t) : TypeOK t ∧ WF t := by
+    (hnd : (d.attrs.map (·.name)).Nodup) (h : define env d = .ok t) : TypeOK t ∧ WF t := by
   obtain ⟨attrs, hattrs, hcs, ht⟩ := define_ok h
   have hparent : TypeOK (parentOf env d) := by
     unfold parentOf
@@ -397,7 +413,7 @@ theorem define_wf {env : List OType} {d : Def} {t : OType} (henv : ∀ t' ∈ en
   refine ⟨hok, ?_⟩
   rcases Option.eq_none_or_eq_some d.serialization with hs | ⟨ser, hs⟩
   · exact wf_noSerialization hok hs
-  · exact wf_serialization hok hs (hser ser hs) (by simpa [hs] using hcs)
+  · exact wf_serialization hok hs (by simpa [hs] using hcs)
 
 /-! ### accepted definitions: `define` succeeds on every well-formed definition -/
 
@@ -472,33 +488,41 @@ def SerSorted (own : List Attr) (parent : OType) (ser : List String) : Prop :=
   ser.Pairwise (fun n m => ∀ a b, lookupMember own parent n = some a → lookupMember own parent m = some b →
     a.optional = true → b.optional = true)
 
-theorem checkSerialization_succeeds {own : List Attr} {parent : OType} {b : Bool} {ser : List String}
+theorem checkSerialization_succeeds {own : List Attr} {parent : OType} {b : Bool} {seen ser : List String}
     (hmem : ∀ n ∈ ser, ∃ a, lookupMember own parent n = some a ∧ a.settable = true)
     (hb : b = true → ∀ n ∈ ser, ∀ a, lookupMember own parent n = some a → a.optional = true)
-    (hs : SerSorted own parent ser) : checkSerialization own parent b ser = .ok () := by
-  induction ser generalizing b with
+    (hs : SerSorted own parent ser) (hnd : ser.Nodup) (hdisj : ∀ n ∈ ser, n ∉ seen) :
+    checkSerialization own parent b seen ser = .ok () := by
+  induction ser generalizing b seen with
   | nil => rfl
   | cons n ns ih =>
     obtain ⟨a, hl, hset⟩ := hmem n (by simp)
     unfold SerSorted at hs
     rw [List.pairwise_cons] at hs
+    rw [List.nodup_cons] at hnd
     unfold checkSerialization
     simp only [hl]
     have hkind : (a.kind == Kind.constant || a.kind == Kind.derived) = false := by
       unfold Attr.settable at hset
       simpa using hset
-    simp only [hkind, Bool.false_eq_true, if_false]
-    by_cases hopt : a.optional = true
-    · simp only [hopt, if_true]
-      exact ih (fun m hm => hmem m (by simp [hm]))
-        (fun _ m hm c hc => hs.1 m hm a c hl hc hopt) hs.2
-    · simp only [hopt, Bool.false_eq_true, if_false]
-      have hbf : b = false := by
-        cases b with
-        | false => rfl
+    have hrao : (!a.optional && b) = false := by
+      by_cases hopt : a.optional = true
+      · simp [hopt]
+      · cases b with
+        | false => simp
         | true => exact absurd (hb rfl n (by simp) a hl) hopt
-      subst hbf
-      simp only [Bool.false_eq_true, if_false]
-      exact ih (fun m hm => hmem m (by simp [hm])) (fun h => by cases h) hs.2
+    have hseen : seen.contains n = false := by simpa using hdisj n (by simp)
+    simp only [hkind, hrao, hseen, Bool.false_eq_true, if_false]
+    apply ih (fun m hm => hmem m (by simp [hm])) _ hs.2 hnd.2
+    · intro m hm hms
+      simp only [List.mem_cons] at hms
+      rcases hms with rfl | hms
+      · exact hnd.1 hm
+      · exact hdisj m (by simp [hm]) hms
+    · intro hb' m hm c hc
+      simp only [Bool.or_eq_true] at hb'
+      rcases hb' with hb' | hb'
+      · exact hb hb' m (by simp [hm]) c hc
+      · exact hs.1 m hm a c hl hc hb'
 
 end Pcore.Object
